@@ -122,9 +122,9 @@ func (w *World) AuditUDP() *UDPAudit {
 	}
 	sort.SliceStable(items, func(i, j int) bool { return items[i].order < items[j].order })
 
-	first := map[segKey]map[uint32]uint64{}    // content of each seq at first transmission
-	nextFirst := map[segKey]uint32{}           // next expected first-transmission seq
-	handed := map[segKey]map[uint32]bool{}     // seqs handed to the receiver of direction key
+	first := map[segKey]map[uint32]uint64{} // content of each seq at first transmission
+	nextFirst := map[segKey]uint32{}        // next expected first-transmission seq
+	handed := map[segKey]map[uint32]bool{}  // seqs handed to the receiver of direction key
 	lastAck := map[segKey]uint32{}
 	for _, it := range items {
 		s := it.seg
